@@ -83,7 +83,8 @@ class MessageHandler(Virtual):
     def getentry(self, message=None):
         """Set the message if called from, eg, the dir handler.  Saves
         having to rescan the file.  If not set, will figure it out."""
-        if not message:
+        # A message without headers has len() == 0 and is falsy.
+        if message is None:
             message = self.getmessage()
 
         if not self.entry:
